@@ -116,7 +116,7 @@ theorem table_driver_make_cache :
     (driver_make_cache : List String) = ["if config.parallel.use_cache and config.solver.footprint:", "  from .cache import GreensFunctionCache", "  return GreensFunctionCache()", "return None"] := rfl
 
 theorem table_solverPlumbing :
-    (solverPlumbing : List (String × String)) = [("(Lx, Ly)", "np.meshgrid(lx, ly)"), ("(Z, Y, X)", "np.meshgrid(z[levels], y, x, indexing='ij')"), ("conc", "p[:, py:nye - py, px:nxe - px]"), ("fftp", "ifftshift(fftp, axes=(1, 2))"), ("fftp", "np.pad(tfftp, pad_width, mode='constant', constant_values=0.0)"), ("fftq", "ifftshift(fftq, axes=(1, 2))"), ("fftq", "np.pad(tfftq, pad_width, mode='constant', constant_values=0.0)"), ("fftq0", "fft2(q0, norm='forward')"), ("fftq0", "fftshift(fftq0)"), ("flx", "q[:, py:nye - py, px:nxe - px]"), ("grid", "(np.squeeze(X), np.squeeze(Y), np.squeeze(Z))"), ("msk[0, 0]", "False"), ("p", "fft2(fftp, norm='backward').real"), ("p", "ifft2(fftp, norm='forward').real"), ("pad_width", "((0, 0), (dly, nye - nly - dly), (dlx, nxe - nlx - dlx))"), ("q", "fft2(fftq, norm='backward').real"), ("q", "ifft2(fftq, norm='forward').real"), ("q0", "np.pad(q0, ((py, py), (px, px)), mode='constant', constant_values=0.0)"), ("result", "(grid, np.squeeze(conc), np.squeeze(flx))"), ("tfftp", "fftshift(tfftp, axes=(1, 2))"), ("tfftp[0, 0, 0]", "p000"), ("tfftp[0, msk]", "alpha"), ("tfftp[0, msk]", "tfftq0[msk] * Kzinv / eigval"), ("tfftp[:, 0, 0]", "p000 - tfftq0[0, 0] * Kzinv * h[:, 0]"), ("tfftp[:, msk]", "alpha * tfftpm1 + tfftpm2"), ("tfftp[:, msk]", "tfftq[:, msk] * Kzinv / eigval"), ("tfftp[lvl, 0, 0]", "tfftp00"), ("tfftp[lvl, 0, 0]", "tfftp00"), ("tfftq", "fftshift(tfftq, axes=(1, 2))"), ("tfftq0", "fftq0[dly:dly + nly, dlx:dlx + nlx]"), ("tfftq0", "ifftshift(tfftq0)"), ("tfftq0", "np.ones((nly, nlx), dtype=np.complex128) / nxe / nye"), ("tfftq[:, 0, 0]", "tfftq0[0, 0]"), ("tfftq[:, msk]", "alpha * tfftqm1 + tfftqm2"), ("tfftq[:, msk]", "tfftq0[msk] * np.exp(-eigval * h)"), ("x", "np.linspace(0, xmx, nx, endpoint=False)"), ("y", "np.linspace(0, ymx, ny, endpoint=False)")] := rfl
+    (solverPlumbing : List (String × String)) = [("(Lx, Ly)", "np.meshgrid(lx, ly)"), ("(Z, Y, X)", "np.meshgrid(z[levels], y, x, indexing='ij')"), ("<side-effect call>", "cache.put(z, profiles, domain, modes, meas_pt, halo_used, precision, *result, extra=cache_extra)"), ("<side-effect call>", "get_fft_manager(num_threads=1)"), ("<side-effect call>", "get_fft_manager(num_threads=config.NUM_THREADS)"), ("<side-effect call>", "set_num_threads(config.NUM_THREADS)"), ("conc", "p[:, py:nye - py, px:nxe - px]"), ("fftp", "ifftshift(fftp, axes=(1, 2))"), ("fftp", "np.pad(tfftp, pad_width, mode='constant', constant_values=0.0)"), ("fftq", "ifftshift(fftq, axes=(1, 2))"), ("fftq", "np.pad(tfftq, pad_width, mode='constant', constant_values=0.0)"), ("fftq0", "fft2(q0, norm='forward')"), ("fftq0", "fftshift(fftq0)"), ("flx", "q[:, py:nye - py, px:nxe - px]"), ("grid", "(np.squeeze(X), np.squeeze(Y), np.squeeze(Z))"), ("msk[0, 0]", "False"), ("p", "fft2(fftp, norm='backward').real"), ("p", "ifft2(fftp, norm='forward').real"), ("pad_width", "((0, 0), (dly, nye - nly - dly), (dlx, nxe - nlx - dlx))"), ("q", "fft2(fftq, norm='backward').real"), ("q", "ifft2(fftq, norm='forward').real"), ("q0", "np.pad(q0, ((py, py), (px, px)), mode='constant', constant_values=0.0)"), ("result", "(grid, np.squeeze(conc), np.squeeze(flx))"), ("tfftp", "fftshift(tfftp, axes=(1, 2))"), ("tfftp[0, 0, 0]", "p000"), ("tfftp[0, msk]", "alpha"), ("tfftp[0, msk]", "tfftq0[msk] * Kzinv / eigval"), ("tfftp[:, 0, 0]", "p000 - tfftq0[0, 0] * Kzinv * h[:, 0]"), ("tfftp[:, msk]", "alpha * tfftpm1 + tfftpm2"), ("tfftp[:, msk]", "tfftq[:, msk] * Kzinv / eigval"), ("tfftp[lvl, 0, 0]", "tfftp00"), ("tfftp[lvl, 0, 0]", "tfftp00"), ("tfftq", "fftshift(tfftq, axes=(1, 2))"), ("tfftq0", "fftq0[dly:dly + nly, dlx:dlx + nlx]"), ("tfftq0", "ifftshift(tfftq0)"), ("tfftq0", "np.ones((nly, nlx), dtype=np.complex128) / nxe / nye"), ("tfftq[:, 0, 0]", "tfftq0[0, 0]"), ("tfftq[:, msk]", "alpha * tfftqm1 + tfftqm2"), ("tfftq[:, msk]", "tfftq0[msk] * np.exp(-eigval * h)"), ("x", "np.linspace(0, xmx, nx, endpoint=False)"), ("y", "np.linspace(0, ymx, ny, endpoint=False)")] := rfl
 
 /-- C15: the two cache call sites of the solver pass the solver's own arguments (and the resolved halo, and the tuple of
 the remaining result-determining arguments) in the order `_compute_key` hashes them -/
